@@ -36,6 +36,24 @@ func runBlockRepo(c *Case) ([]Obs, any) {
 		panic(err)
 	}
 	var result []Obs
+	crash := cfgInt(c, "crash", 0) != 0
+	var snapshots [][]int64
+	snapshot := func() {
+		if !crash {
+			return
+		}
+		var ids []int64
+		for h := 0; h <= repo.LastHeight(); h++ {
+			hash, err := repo.Hash(ctx, h)
+			if err != nil {
+				ids = append(ids, -66)
+				continue
+			}
+			ids = append(ids, u.ID(hash))
+		}
+		snapshots = append(snapshots, ids)
+	}
+	snapshot()
 	nextTime := func(id int64) int64 { return 1300000000 + id*600 }
 	for _, raw := range c.Ops {
 		op := decodeOp(raw)
@@ -147,6 +165,70 @@ func runBlockRepo(c *Case) ([]Obs, any) {
 			panic(harnessErr("unknown op " + op.Name))
 		})
 		result = append(result, obs)
+		switch op.Name {
+		case "add", "addn", "revert", "load":
+			snapshot()
+		}
 	}
-	return result, nil
+	if !crash {
+		return result, nil
+	}
+	// every prefix of the real mutation log: a fresh repository must load a linked prefix of a chain
+	// the repository held at some point
+	var images [][]int64
+	for i := 0; i <= len(store.Log); i++ {
+		img := ImageOf(store.Log, i, store.RmMissingErr)
+		n2 := spynode.NewNode(cfg, img, nil, nil)
+		r2 := n2.VerifBlocks()
+		row := func() (row []int64) {
+			defer func() {
+				if r := recover(); r != nil {
+					row = []int64{PANIC}
+				}
+			}()
+			if err := r2.Load(ctx); err != nil {
+				return []int64{ERR}
+			}
+			var ids []int64
+			linked := int64(1)
+			var prev *bitcoin.Hash32
+			for h := 0; h <= r2.LastHeight(); h++ {
+				hdr, err := r2.Header(ctx, h)
+				if err != nil {
+					return []int64{ERR, int64(h)}
+				}
+				hash := hdr.BlockHash()
+				hh, ok := r2.Height(hash)
+				if !ok || hh != h {
+					linked = 0
+				}
+				_ = prev
+				prev = hash
+				ids = append(ids, u.ID(hash))
+			}
+			isPrefix := int64(0)
+			for _, snap := range snapshots {
+				if len(ids) <= len(snap) {
+					same := true
+					for k := range ids {
+						if ids[k] != snap[k] {
+							same = false
+							break
+						}
+					}
+					if same {
+						isPrefix = 1
+						break
+					}
+				}
+			}
+			return []int64{OK, linked, isPrefix, int64(len(ids))}
+		}()
+		images = append(images, row)
+	}
+	var keys []string
+	for _, m := range store.Log {
+		keys = append(keys, m.Kind+":"+m.Key)
+	}
+	return result, map[string]any{"images": images, "log": keys}
 }
